@@ -181,6 +181,16 @@ def _check_one_properties_file(vfile):
     return res
 
 
+def run_pregen(P):
+    """run the property's translators (commands relative to /verif) with VERIF_REPO set; returns a log"""
+    log = []
+    for cmd in P.get("pregen", []):
+        env = dict(GOENV, VERIF_REPO=REPO)
+        rc, out = sh(cmd, cwd=VERIF, timeout=600, env=env)
+        log.append({"cmd": cmd, "rc": rc, "out": out[-2000:]})
+    return log
+
+
 # ------------------------------------------------------------------ extraction + OCaml driver
 
 def file_hash(paths):
